@@ -43,6 +43,13 @@ def parse(stmt, line):
             p, v = t.split(":")
             rr.append((Fraction(p), pval(v)))
         return ("frame", cl, pval(init), rr)
+    if cmd == "hist" and stmt.split()[4:5] == ["unit"]:
+        out = []
+        for t in line.split():
+            iv, v = t.split("=")
+            l, r = iv.split(":")
+            out.append(((Fraction(l), Fraction(r)), pval(v)))
+        return ("pairs", out)
     if cmd in ("limit", "sample", "ecdf", "perc", "frac", "quant", "hist", "stat", "vir", "cov"):
         return ("vals", [pval(t) for t in line.split()])
     if cmd == "q":
